@@ -87,6 +87,7 @@ type VFD struct {
 
 	RdIntr int // number of upcoming read calls answered with EINTR before the queue is looked at
 
+	Refusals  int64 // write-like calls answered EAGAIN or with a short count (the socket buffer is full)
 	Reads     int64 // number of read calls
 	ReadsIdle int64 // number of read calls that found nothing (EAGAIN)
 	Writes    int64 // number of write-like calls
@@ -156,15 +157,22 @@ func (v *VFD) answer(want int) (int, error) {
 		return ZeroLen(v)
 	}
 	if len(v.Script) == 0 {
+		v.Refusals++
 		return -1, syscall.EAGAIN // exhausted script: kernel is full from now on
 	}
 	a := v.Script[0]
 	v.Script = v.Script[1:]
 	if a.Err != 0 {
+		if a.Err == syscall.EAGAIN {
+			v.Refusals++
+		}
 		return -1, a.Err
 	}
 	if a.N > want {
 		a.N = want
+	}
+	if a.N < want {
+		v.Refusals++
 	}
 	return a.N, nil
 }
